@@ -138,6 +138,12 @@ fn run(args: &[String]) -> String {
             };
             if r.is_zero() { "ok:inf".into() } else { format!("ok:{}", hex::encode(r.to_bytes_be())) }
         }
+        "sm9_mod_n_mul" => {
+            let a = gm_sm9::u256::u256_from_be_bytes(&h(&args[1]));
+            let b = gm_sm9::u256::u256_from_be_bytes(&h(&args[2]));
+            let r = gm_sm9::fields::mod_n_mul(&a, &b);
+            format!("ok:{:016x}{:016x}{:016x}{:016x}", r[3], r[2], r[1], r[0])
+        }
         "sm9_verify_annex" => {
             // GM/T 0044.5 Annex A signature example: ks, ID "Alice", message "Chinese IBS standard", (h, S)
             let ks = gm_sm9::u256::u256_from_hex("000130E78459D78545CB54C587E02CF480CE0B66340F319F348A1D5B1F2DC5F4");
